@@ -252,7 +252,7 @@ def gen_transfer(world, draw, profile):
     pooled = [i for i, e in enumerate(world.pool) if e.kind == 's' and (world.live is None or e.meta['plate'] in world.live)]
     if pooled:
         # slice objects kept in the pool are used again and again (a caller holding on to `s = plate[...]`)
-        forms += ['ps2s', 'ps2c', 'c2ps'] if cs else ['ps2s']
+        forms += ['ps2s', 'ps2c', 'c2ps'] * 2 if cs else ['ps2s'] * 2
     if not forms:
         return None
     form = draw(st.sampled_from(forms))
@@ -570,8 +570,8 @@ def gen_create_solution(world, draw, profile):
     if use_container:
         sv = world.pool[solvent['c']].view
         vtot = sv['vol'] * cfg.vol_mult * draw(st.floats(0.05, 0.6))        # litres
-        if profile.get('solution_over') and draw(st.integers(0, 2)) == 0:
-            vtot = sv['vol'] * cfg.vol_mult * draw(st.floats(1.1, 1.6))     # more than the container holds by now
+        if profile.get('solution_over') and draw(st.integers(0, 1)) == 0:
+            vtot = sv['vol'] * cfg.vol_mult * draw(st.floats(1.02, 1.4))    # more than the container holds by now
         sbase = world.base(sv)
         stot = ref.size(sbase, 'L')
         mix = {nm: a / stot * vtot for nm, a in sbase.items()}            # solvent part (scaled later)
